@@ -198,7 +198,7 @@ impl Engine for C08 {
             &case.sched,
             &case.io,
             None,
-            max_steps(&case.tier),
+            steps_for(case),
         );
         out.absorb(&r, true);
         match &r.value {
